@@ -13,11 +13,12 @@ for marker,order,desc in (('Default','le','little endian'),('BigEndian','be','bi
         open spec fn spec_enc(v: &{t}) -> Seq<u8> {{ {order}_seq{n}(*v as nat) }}
         open spec fn spec_dec(b: Seq<u8>) -> Option<({t}, int)> {{ if b.len() < {n} {{ None }} else {{ Some(({order}_val{n}(b.subrange(0, {n})) as {t}, {n})) }} }}
         open spec fn progresses() -> bool {{ true }}
-        //@ fn exp:zvt_builder | impl Encoding<{t}> for {marker} | encode | mod=encoding props=C17,C03
+        //@ fn exp:zvt_builder | impl Encoding<{t}> for {marker} | encode | mod=encoding props=C17,C03 $M
         //@ end
-        //@ fn exp:zvt_builder | impl Encoding<{t}> for {marker} | decode | mod=encoding props=C02,C17
+        //@ fn exp:zvt_builder | impl Encoding<{t}> for {marker} | decode | mod=encoding props=C02,C17 $M
         //@ end
         open spec fn self_delimiting() -> bool {{ true }}
+        open spec fn functional() -> bool {{ true }}
         proof fn law_dec_bounds(b: Seq<u8>) {{}}
         //@ tag enc.law_dec_frame.{order}.{t} C14
         proof fn law_dec_frame(b: Seq<u8>, s: Seq<u8>) {{
